@@ -78,10 +78,9 @@ def selectOp : Handler := fun req => do
       let trimmed := (listed.map (·.1)) != ((ingest { only := none, excluded := none } (specOrder ops) []).getD []).map (·.1)
       let uniquified := bases.eraseDups.length != bases.length
       let dropped := !silent.isEmpty
-      let traceDup := ops.any fun o => o.method == "TRACE".toList
       -- the listed classes are all reproduced by the model: a wrong selection that the model does NOT predict is none of them
       let known := if modelJ != implJ then [] else
-        (if trimmed then ["KnownTrimmed"] else []) ++ (if uniquified then ["KnownUniquified"] else []) ++ (if dropped then ["KnownSilentDrop"] else []) ++ (if traceDup then ["KnownTraceDuplicated"] else [])
+        (if trimmed then ["KnownTrimmed"] else []) ++ (if uniquified then ["KnownUniquified"] else []) ++ (if dropped then ["KnownSilentDrop"] else [])
       verdict false known s!"--{mode} {selS}: emitted {Json.arr gotI.toArray |>.compress}, expected the listed rows {Json.arr want.toArray |>.compress}"
   let branch := mode ++ s!"{sel.length}/{ops.length}"
   pure (Json.mkObj [("model", modelJ), ("match", modelJ == implJ), ("judge", judge), ("branch", branch)])
